@@ -1021,12 +1021,10 @@ class Interp:
         if idx[0] == "slice":
             lo, hi, stp = idx[1:]
             # x[:-k] / x[-k:] of a vector whose length is evident are the slices with explicit bounds
-            if stp == NONE and ((is_num(hi) and hi[1] < 0) or (is_num(lo) and lo[1] < 0)):
+            if stp == NONE and is_num(hi) and hi[1] < 0 and (lo == NONE or (is_num(lo) and lo[1] >= 0) or not is_num(lo)):
                 n = self.length_of(base)
                 if n is not None:
-                    lo = ZERO if lo == NONE else (T_add(n, lo) if is_num(lo) and lo[1] < 0 else lo)
-                    hi = n if hi == NONE else (T_add(n, hi) if is_num(hi) and hi[1] < 0 else hi)
-                    return ("app", "slice", (base, lo, hi, NONE))
+                    return ("app", "slice", (base, ZERO if lo == NONE else lo, T_add(n, hi), NONE))
             return ("app", "slice", (base,) + idx[1:])
         if idx[0] == "lam":
             return ("lam", idx[1], idx[2], self.elem(base, idx[3]))
